@@ -1780,7 +1780,7 @@ def _dump_qcschema_output(f: TextIO, data: IOData) -> dict:
     if "stderr" in data.extra["output"]:
         output_dict["stderr"] = data.extra["output"]["stderr"]
     if "stdout" in data.extra["output"]:
-        output_dict["stderr"] = data.extra["output"]["stdout"]
+        output_dict["stdout"] = data.extra["output"]["stdout"]
     if "wavefunction" in data.extra["output"]:
         output_dict["wavefunction"] = data.extra["output"]["wavefunction"]
     output_dict["provenance"] = _dump_provenance(f, data, "input")
